@@ -531,6 +531,24 @@ func (c *Checker) frameObligations() {
 		}
 		sort.Strings(ks)
 		for _, key := range ks {
+			if strings.HasPrefix(key, "functype:") {
+				// every function of the package with the signature of the named function type
+				for _, f := range w.FuncList {
+					if encoded[f] || f.Blocks == nil || f.Signature.Recv() != nil || f.Parent() != nil || f.Pkg == nil {
+						continue
+					}
+					probe := &enc{w: w, f: f}
+					for _, ii := range probe.ifaceContractsOf(f) {
+						if ii.key == key {
+							encoded[f] = true
+							c.addFunc(f, func(o *Obl) bool {
+								return o.Class == "contract" || o.Class == "subset" || (o.Class == "post" && strings.HasPrefix(o.Label, "iface:"))
+							})
+						}
+					}
+				}
+				continue
+			}
 			it, m := w.ifaceMethod(key)
 			if m == nil {
 				continue
